@@ -1229,6 +1229,15 @@ func (env *specEnv) locOf(e ast.Expr) []*locRef {
 		env.fail("bad location %s", exprString(e))
 	case *ast.CallExpr:
 		if id, ok := t.Fun.(*ast.Ident); ok {
+			if id.Name == "anymap" && len(t.Args) == 1 {
+				// every entry of every map of the argument's map type
+				x := env.eval(t.Args[0])
+				if _, ok := x.T.Underlying().(*types.Map); !ok {
+					env.fail("anymap expects a map-typed expression")
+				}
+				dom, vals, ln := ex.mapClassesFor(x.T)
+				return []*locRef{{classes: append(append([]*HeapClass{dom}, vals...), ln), region: func(key []*Term) *Term { return True }}}
+			}
 			if id.Name == "ghostall" && len(t.Args) == 1 {
 				// every cell of a ghost function
 				gid, ok := t.Args[0].(*ast.Ident)
